@@ -42,6 +42,8 @@ func runC05(e *Env) {
 	ruleWrap(e, "C05.wrap", "uu")
 	ruleLimit(e, "C05.limit", "uu")
 	ruleTyped(e, "C05.typed", "uu")
+	ruleDeleg(e, "C05.deleg", "uu")
+	e.S.Floor("C05.deleg", 12)
 	e.S.Floor("C05.layout", 12)
 	e.S.Floor("C05.pos", 4)
 	e.S.Floor("C05.nib", 33)
